@@ -21,6 +21,12 @@ CHECKS = {
              text="At every Start event of every schedule: all producers (any input kind, recorded deps, dyndep) that had work are done, directories exist, rspfile content is in place."),
  "C05": dict(cat="model_checking", ref="6.C05", tech="fault sets x -k x -j x completion orders generated from Families.tla, real engine executions validated by TLC against the failure-containment monitors",
              text="Fault enumeration over subsets of failing commands (exit codes, touched outputs), -k and -j, all completion orders; monitors: nothing downstream starts, exit status, no record written (next build retries), -k completeness."),
+ "C14": dict(cat="model_checking", ref="6.C14", engine="function-reference", tech="TLA+ reference normaliser (CanonRef.tla) explored exhaustively by TLC (one state per string, laws as invariants); every enumerated string replayed on CanonicalizePath with the TLC-computed expectation; random long paths validated by TLC (CanonTrace.tla)",
+             text="Bounded-exhaustive in both the model and the implementation: all strings over {a,b,.,/} up to the stated length are TLC states on which the laws of the property hold for the reference, and each is an implementation test; random long paths with arbitrary bytes are checked code->spec.",
+             note="Trusted: TLC; CanonRef.tla as the meaning of lexical equality (one-step rewrites) and of the normal form. Bounded by the alphabet and length given in the evidence."),
+ "C16": dict(cat="model_checking", ref="6.C16", engine="function-reference", tech="TLA+ quoting reference and sh word-formation model (ShellQuote.tla) checked by TLC for every name/list state; each state replayed through the real Edge expansion and the real /bin/sh; rspfile clauses by TLC trace validation of engine executions",
+             text="Every name of <= 2 bytes, every 3-byte name over the shell-special alphabet and every list of <= 3 hostile names is a TLC state satisfying ShWords(JoinQ(names)) = names; the real $in/$out/$in_newline expansion of each is executed through /bin/sh -c and must give back exactly the names (alarm), equality with the reference text is reported as conformance; response-file monitors run on engine traces.",
+             note="Trusted: TLC; /bin/sh (dash) as the shell; the argv helper. The sh model is bound to the real shell by executing every expansion."),
 }
 
 NOT_YET = "check not built yet (work in progress; see DESIGN.md section 9)"
@@ -37,7 +43,9 @@ def main():
                "add_only": True},
      "engines": [
        {"name": "engine-trace-validation", "path": "lib/engine.py", "serves_properties": [i for i in ids if i in CHECKS and i <= "C07"],
-        "kind_free_text": "TLC exports scenario families (spec/Families.tla); harness/h1.cc runs them on the real classes under all completion orders; TLC validates every execution against spec/RefTrace.tla (monitors from spec/NinjaRef.tla)"}],
+        "kind_free_text": "TLC exports scenario families (spec/Families.tla); harness/h1.cc runs them on the real classes under all completion orders; TLC validates every execution against spec/RefTrace.tla (monitors from spec/NinjaRef.tla)"},
+       {"name": "function-reference", "path": "lib/fnlib.py", "serves_properties": [i for i in ids if CHECKS.get(i, {}).get("engine") == "function-reference"],
+        "kind_free_text": "TLA+ reference function + laws model-checked by TLC over a bounded input space; every enumerated input exported by TLC and replayed on the real function (harness/fn.cc); recorded random calls validated by a TLC trace spec"}],
      "checks": [],
      "not_applicable": [],
      "notes": "See DESIGN.md. exit 2 from a check means the check itself is broken (never a violation).",
